@@ -87,7 +87,10 @@ class Verifier:
         self.eng = Engine(program, schema, contracts, dict(B.H), timeout_ms)
         self.eng.modular_hook = self.modular
         self.eng.ctor_hook = self.modular_ctor
-        self.eng.global_axioms = list(spec.global_axioms())
+        self.eng.builtins["__loopinv__"] = self.loop_hook
+        self.loops = getattr(spec, "loops", {})
+        from .ops import divmod_axioms
+        self.eng.global_axioms = list(spec.global_axioms()) + divmod_axioms()
         spec.install(self.eng)
         self.obls = []
         self.site_counter = {}
@@ -211,7 +214,8 @@ class Verifier:
         n = self.site_counter.setdefault((self.current, fq, line), len([k for k in self.site_counter if k[0] == self.current and k[1] == fq]))
         site = "%s#%d" % (fq.replace("measured.", ""), n)
         if not self.spec.applicable(K, a):
-            raise Unsupported("contract of %s not applicable to these argument types" % fq)
+            yield from self._inline(fi, args, kwargs, state, node, qual)
+            return
         for name in K.inv:
             for nm, f in self.spec.invariant(name, pre):
                 self.add("call-pre", "%s:inv:%s" % (site, nm), state, f)
@@ -274,6 +278,128 @@ class Verifier:
             for nm, f in self.spec.invariant(name, post):
                 st.assume(f)
         yield result, st
+
+    def _inline(self, fi, args, kwargs, state, node, qual):
+        """contract not applicable to these arguments: execute the body instead"""
+        if qual:
+            cls = qual.split(".")[-1]
+            st = state.fork()
+            st.env = dict(state.env)
+            st.env["__ctor_inline__"] = cls
+            for v, s2 in self.eng.construct(cls, args[1:], kwargs, st, node):
+                s2 = s2.fork()
+                s2.env = dict(s2.env)
+                s2.env.pop("__ctor_inline__", None)
+                yield v, s2
+            return
+        self.disabled_contracts.add(fi.qual)
+        try:
+            yield from list(self.eng.call_function(fi, args, kwargs, state, node))
+        finally:
+            self.disabled_contracts.discard(fi.qual)
+
+    # -- loops with sidecar invariants ----------------------------------------------------------
+    def havoc(self, st, modifies):
+        for m in modifies:
+            if m.startswith("new:"):
+                cls = m[4:]
+                old_alive = st.alive_array(cls)
+                st.alive[cls] = fresh("alive_" + cls, old_alive.sort())
+                r = z3.Const("r!fr", Ref(cls))
+                st.assume(z3.ForAll([r], z3.Implies(z3.Select(old_alive, r), z3.Select(st.alive[cls], r))))
+                for fld in self.schema.fields.get(cls, {}):
+                    old_arr = st.field_array(cls, fld)
+                    new_arr = fresh("H_%s_%s" % (cls, fld), old_arr.sort())
+                    st.heap[(cls, fld)] = new_arr
+                    st.assume(z3.ForAll([r], z3.Implies(z3.Select(old_alive, r), z3.Select(new_arr, r) == z3.Select(old_arr, r))))
+                    st.writes.add("%s.%s" % (cls, fld))
+            elif m in self.schema.globals:
+                c = st.glob(m).clone()
+                if c.kind in ("dict", "dict2"):
+                    c.dom = fresh("G_%s_dom" % m, c.dom.sort())
+                    c.val = fresh("G_%s_val" % m, c.val.sort())
+                else:
+                    c.dom = fresh("G_%s" % m, c.dom.sort())
+                st.locs[m] = c
+                st.writes.add(m)
+            else:
+                cls, fld = m.split(".")
+                st.heap[(cls, fld)] = fresh("H_%s_%s" % (cls, fld), st.field_array(cls, fld).sort())
+                st.writes.add(m)
+
+    def loop_hook(self, eng, node, it, st):
+        qual = st.env.get("__func__")
+        fi = self.program.func(qual) if qual else None
+        if fi is None:
+            return None
+        loops = sorted([n for n in ast.walk(fi.node) if isinstance(n, (ast.For, ast.While))], key=lambda n: (n.lineno, n.col_offset))
+        ordinal = [i for i, n in enumerate(loops) if n is node]
+        if not ordinal:
+            return None
+        L = self.loops.get((qual, ordinal[0]))
+        if L is None:
+            return None
+        sp = B.iter_space(eng, it, st)
+        if sp.kind != "keys":
+            return None
+        return self._loop(L, ordinal[0], eng, node, sp, st)
+
+    def _loop_inv(self, L, st, entry, V):
+        c = Ctx(self.eng, st, old=entry)
+        out = []
+        for name in L.inv_names:
+            out += [("inv:" + nm, f) for nm, f in self.spec.invariant(name, c)]
+        out += list(L.inv(c, Args(st.env), V))
+        return out
+
+    def _rehavoc_locals(self, L, node, st):
+        assigned = set()
+        for n in ast.walk(ast.Module(body=node.body, type_ignores=[])):
+            if isinstance(n, ast.Name) and isinstance(n.ctx, ast.Store):
+                assigned.add(n.id)
+        for t in ast.walk(node.target):
+            if isinstance(t, ast.Name):
+                assigned.discard(t.id)
+        for name in sorted(assigned):
+            if name in st.env:
+                st.env[name] = self.make(B.type_of_value(st.env[name]), st, name)
+
+    def _loop(self, L, ordinal, eng, node, sp, st):
+        ks = sort_of(sp.kt)
+        entry = Ctx(eng, st.fork())
+        V0 = z3.K(ks, z3.BoolVal(False))
+        for nm, f in self._loop_inv(L, st, entry, V0):
+            self.add("loop-init", "%d:%s" % (ordinal, nm), st, f)
+        # arbitrary iteration
+        s1 = st.fork()
+        s1.env = dict(s1.env)
+        self.havoc(s1, L.modifies)
+        self._rehavoc_locals(L, node, s1)
+        V = fresh("V", z3.ArraySort(ks, z3.BoolSort()))
+        kk = z3.Const("k!V", ks)
+        s1.assume(z3.ForAll([kk], z3.Implies(z3.Select(V, kk), z3.Select(sp.dom, kk))))
+        k = fresh("key", ks)
+        s1.assume(z3.Select(sp.dom, k))
+        s1.assume(z3.Not(z3.Select(V, k)))
+        for nm, f in self._loop_inv(L, s1, entry, V):
+            s1.assume(f)
+        B.bind_target(eng, node.target, sp.fn(k), s1.env)
+        for kind, payload, s2 in eng.exec_block(node.body, s1):
+            if kind in ("next", "continue"):
+                for nm, f in self._loop_inv(L, s2, entry, z3.Store(V, k, z3.BoolVal(True))):
+                    self.add("loop-step", "%d:%s" % (ordinal, nm), s2, f)
+            elif kind == "break":
+                yield "next", None, s2
+            else:
+                yield kind, payload, s2
+        # after the loop
+        s3 = st.fork()
+        s3.env = dict(s3.env)
+        self.havoc(s3, L.modifies)
+        self._rehavoc_locals(L, node, s3)
+        for nm, f in self._loop_inv(L, s3, entry, sp.dom):
+            s3.assume(f)
+        yield "next", None, s3
 
     # -- obligations -----------------------------------------------------------------------------
     def add(self, kind, name, state, goal, note=""):
@@ -426,11 +552,120 @@ class Verifier:
                                    "model": model_txt, "note": note}
 
 
-def _check_one(hyps, goal, timeout):
+_intro_n = [0]
+
+
+def intro(goal):
+    """Skolemise the universal quantifiers of a goal by hand (fresh constants): proving
+    the instance at fresh constants proves the universal statement."""
+    if z3.is_quantifier(goal) and goal.is_forall():
+        vs = []
+        for j in range(goal.num_vars()):
+            _intro_n[0] += 1
+            vs.append(z3.Const("%s!g%d" % (goal.var_name(j), _intro_n[0]), goal.var_sort(j)))
+        return intro(z3.substitute_vars(goal.body(), *reversed(vs)))
+    if z3.is_and(goal):
+        return z3.And([intro(ch) for ch in goal.children()])
+    if z3.is_implies(goal):
+        return z3.Implies(goal.arg(0), intro(goal.arg(1)))
+    if z3.is_app_of(goal, z3.Z3_OP_ITE) and goal.sort() == z3.BoolSort():
+        return z3.If(goal.arg(0), intro(goal.arg(1)), intro(goal.arg(2)))
+    return goal
+
+
+def _flatten(fs):
+    out, stack = [], list(fs)
+    while stack:
+        f = stack.pop()
+        if z3.is_and(f):
+            stack.extend(f.children())
+        else:
+            out.append(f)
+    return out
+
+
+_GC = {}
+
+
+def _consts_of(f):
+    k = f.get_id()
+    hit = _GC.get(k)
+    if hit is not None:
+        return hit[0]
+    out, seen, stack = {}, set(), [f]
+    while stack:
+        x = stack.pop()
+        i = x.get_id()
+        if i in seen:
+            continue
+        seen.add(i)
+        if z3.is_quantifier(x):
+            stack.append(x.body())
+            continue
+        if z3.is_app(x):
+            if x.num_args() == 0:
+                if x.decl().kind() == z3.Z3_OP_UNINTERPRETED:
+                    out.setdefault(x.sort().name(), {})[i] = x
+            else:
+                stack.extend(x.children())
+    _GC[k] = (out, f)
+    return out
+
+
+def _ground_consts(fs):
+    """0-ary uninterpreted constants by sort name"""
+    out = {}
+    for f in fs:
+        for s, d in _consts_of(f).items():
+            out.setdefault(s, {}).update(d)
+    return out
+
+
+def preinstantiate(hyps, goal_i, rounds=2, cap=6, terms=None):
+    """Manual trigger set (DESIGN 2.6): instantiate single-variable universal hypotheses at
+    the skolem constants of the goal and at the object-sorted constants of the query.
+    Instances of valid hypotheses are valid: this only helps the solver."""
+    if terms is None:
+        consts = _ground_consts([goal_i])
+        allc = _ground_consts(list(hyps) + [goal_i])
+        terms = {}
+        for sname, d in allc.items():
+            if sname in ("Int", "Real", "Bool", "String"):
+                continue  # objects: every constant of the sort
+            terms[sname] = list(d.values())[:cap]
+        for sname in ("Int",):
+            terms[sname] = [c for c in consts.get(sname, {}).values() if "!g" in c.decl().name()][:cap]
+    extra, frontier = [], _flatten(hyps)
+    seen = set()
+    for _ in range(rounds):
+        new = []
+        for f in frontier:
+            if z3.is_quantifier(f) and f.is_forall() and f.num_vars() == 1:
+                for t in terms.get(f.var_sort(0).name(), []):
+                    inst = z3.substitute_vars(f.body(), t)
+                    k = inst.get_id()
+                    if k not in seen:
+                        seen.add(k)
+                        new.append(inst)
+            elif z3.is_implies(f) and z3.is_quantifier(f.arg(1)) and f.arg(1).is_forall() and f.arg(1).num_vars() == 1:
+                q = f.arg(1)
+                for t in terms.get(q.var_sort(0).name(), []):
+                    new.append(z3.Implies(f.arg(0), z3.substitute_vars(q.body(), t)))
+        extra += new
+        frontier = _flatten(new)
+        if len(extra) > 400:
+            break
+    return extra
+
+
+def _check_one(hyps, goal, timeout, pre=True):
     s = z3.Solver()
     s.set(timeout=timeout)
+    g = intro(goal)
     s.add(*hyps)
-    s.add(z3.Not(goal))
+    if pre:
+        s.add(*preinstantiate(hyps, g))
+    s.add(z3.Not(g))
     t = time.time()
     r = s.check()
     return r, (time.time() - t) * 1000, s
@@ -444,21 +679,21 @@ def _portfolio(self, ob):
     full = base + list(ob.pc)
     qf = [f for f in full if not _has_quant(f)]
     total = 0.0
-    r, dt, s = _check_one(full, ob.goal, min(2000, self.timeout_ms))
-    total += dt
-    if r == z3.unknown and len(qf) < len(full):
-        r2, dt, s2 = _check_one(qf, ob.goal, min(3000, self.timeout_ms))
+    T = self.timeout_ms
+    last = None
+    for hyps, pre, budget in ((full, False, 1000), (full, True, 3000), (qf, False, 3000), (full, False, T), (full, True, T)):
+        if hyps is qf and len(qf) == len(full):
+            continue
+        r, dt, s = _check_one(hyps, ob.goal, min(budget, T), pre=pre)
         total += dt
-        if r2 == z3.unsat:
-            return r2, total, None, ""
-    if r == z3.unknown and self.timeout_ms > 2000:
-        r, dt, s = _check_one(full, ob.goal, self.timeout_ms)
-        total += dt
-    if r == z3.sat:
-        return r, total, s.model(), ""
-    if r == z3.unknown:
-        return r, total, None, s.reason_unknown()
-    return r, total, None, ""
+        if r == z3.unsat:
+            return r, total, None, ""
+        if hyps is full:
+            last = (r, s)
+            if r == z3.sat:
+                return r, total, s.model(), ""
+    r, s = last
+    return r, total, None, s.reason_unknown()
 
 
 Verifier._check = _portfolio
